@@ -265,13 +265,16 @@ def execStmt (cfg : Cfg) (st : St) : Stmt → St × Fin
   | .dag p g e => runDag cfg p g e cfg.dag st
   | .unknown _ => (st, .panicked)
 
+/-- Sequencing: continue with `k` only when the previous statement fell through. -/
+def andThen (r : St × Fin) (k : St → St × Fin) : St × Fin :=
+  match r with
+  | (st', .running) => k st'
+  | other => other
+
 def exec (cfg : Cfg) : Skel → St → St × Fin
   | [], st => (st, .running)
   | g :: gs, st =>
-    if g.conds.all (evalCond cfg st) then
-      match execStmt cfg st g.stmt with
-      | (st', .running) => exec cfg gs st'
-      | r => r
+    if g.conds.all (evalCond cfg st) then andThen (execStmt cfg st g.stmt) (exec cfg gs)
     else exec cfg gs st
 
 def initSt (cfg : Cfg) : St := { results := cfg.prev, stop := cfg.stop0 }
